@@ -72,6 +72,15 @@ func (r *rkChain) Run(body string) (abci.ResponseDeliverTx, error) {
 	return r.tx(vm.NewMsgRun(r.K.Addr, nil, []*std.MemFile{{Name: "main.gno", Body: body}}))
 }
 
+// QStr evaluates a string-valued expression against committed state.
+func (r *rkChain) QStr(pkg, expr string) (string, error) {
+	s, err := r.C.QEval(pkg, expr)
+	if err != nil {
+		return "", err
+	}
+	return rkRetString([]byte(s))
+}
+
 // rkRetString extracts the single string result of a MsgCall / qeval:
 // `("..." string)`.
 func rkRetString(data []byte) (string, error) {
